@@ -60,7 +60,7 @@ def key_is_documented(key):
         return True
     if not isinstance(key, str):
         return False
-    m = KEY.match(key)
+    m = KEY.fullmatch(key)      # not .match(): '$' would also accept a trailing newline
     return bool(m) and m.group(1) in ELEMENTS
 
 
@@ -182,7 +182,7 @@ class RMol:
 
 
 def parse_atom_symbol(sym, table):
-    m = ATOM.match(sym)
+    m = ATOM.fullmatch(sym)
     if not m:
         return None
     b, iso, el, chir, h, ch = m.groups()
@@ -299,7 +299,7 @@ def _derive_fragment(toks, offset, mol, table, cache):
         sym = toks[pos]
         pos += 1
         f.used += 1
-        mb = BRANCH.match(sym)
+        mb = BRANCH.fullmatch(sym)
         if mb is not None:
             if f.state <= 1:
                 st["branch_skipped"] += 1
@@ -327,7 +327,7 @@ def _derive_fragment(toks, offset, mol, table, cache):
             if len(frames) - 1 > mol.max_depth:
                 mol.max_depth = len(frames) - 1
             continue
-        mr = RING.match(sym)
+        mr = RING.fullmatch(sym)
         if mr is not None:
             pre = mr.group(1)
             if pre == "--":
